@@ -371,6 +371,36 @@ MUTANTS = [
                         let expression =
                             hang_expression(ctx, &value, shape, calculate_hang_level(&value));""",
      "formatted-node-formatted-again"),
+    ("diffbytes-strip-cr", "C18", "src/cli/main.rs",
+     "opt::OutputFormat::Unified => output_diff::output_diff_unified(original, expected),",
+     "opt::OutputFormat::Unified => output_diff::output_diff_unified(original, expected).map(|o| o.map(|mut v| { v.retain(|b| *b != b'\\r'); v })),",
+     "diff-bytes-modified producer=output_diff_unified"),
+    ("errstatus-broken-pipe-diff", "C13", "src/cli/main.rs",
+     "                            Ok(_) => (),\n                            Err(err) => error!(\"{:#}\", err),",
+     "                            Ok(_) => (),\n                            Err(err) if err.kind() == std::io::ErrorKind::BrokenPipe => (),\n                            Err(err) => error!(\"{:#}\", err),",
+     "error-handled-without-status-2 on=result-of-write_all"),
+    ("sort-other-partition-short-toggle", "C12", "src/sort_requires.rs",
+     """                for stmt in list.iter() {
+                    ctx = ctx.check_toggle_formatting(stmt);
+                }
+                stmts.append(&mut list)""",
+     """                if list.len() > 1 {
+                    for stmt in list.iter() {
+                        ctx = ctx.check_toggle_formatting(stmt);
+                    }
+                }
+                stmts.append(&mut list)""", "partition-emitted-without-toggle-walk"),
+    ("parens-omit-only-outside-heuristics", "C11", "src/formatters/functions.rs",
+     "                && arguments.len() == 1\n                && !matches!(call_next_node, FunctionCallNextNode::ObscureWithoutParens)\n            {",
+     "                && arguments.len() == 1\n                && !shape.using_simple_heuristics()\n                && !matches!(call_next_node, FunctionCallNextNode::ObscureWithoutParens)\n            {",
+     "[Parentheses kept]"),
+    ("layout-punctuated-comments-only-if-wide", "C03", "src/formatters/general.rs",
+     "    if format_multiline {\n        format_punctuated_multiline(ctx, old, shape, value_formatter, hang_level)",
+     "    if format_multiline && shape.test_over_budget(old) {\n        format_punctuated_multiline(ctx, old, shape, value_formatter, hang_level)",
+     "comment-test-does-not-force-layout punctuated_inline_comments"),
+    ("dedup-insert-only-for-files", "C19", "src/cli/main.rs",
+     "                    seen_files.insert(path.clone());\n", "                    if path.is_dir() {\n                        seen_files.insert(path.clone());\n                    }\n",
+     "dedup-not-enforced"),
 ]
 
 
